@@ -197,6 +197,9 @@ pub struct SimConfig {
     pub byz_mode: String, // "silent" | "spam"
     pub crashed: Vec<usize>,
     pub crash_at_ms: u64,
+    /// > 0: the harness triggers standstill recovery at every node every so many virtual ms (the node's own
+    /// detector measures wall-clock time with std::time::Instant, which does not move under the paused clock)
+    pub standstill_ms: u64,
     pub seed: u64,
     pub gst_ms: u64,
     pub chaos_ms: u64,
@@ -226,6 +229,33 @@ fn vote_json(names: &Mutex<HashMap<Vec<u8>, String>>, v: &Vote) -> Value {
     };
     // TLC integers are 32-bit: far-future slots / signer indices of hostile votes are saturated
     json!({"k": k, "s": v.slot().inner().min(1 << 30), "h": h, "v": v.signer().inner().min(1 << 20)})
+}
+
+fn cert_json(names: &Mutex<HashMap<Vec<u8>, String>>, c: &alpenglow::consensus::Cert) -> Value {
+    use alpenglow::consensus::Cert;
+    let k = match c {
+        Cert::Notar(_) => "notar",
+        Cert::NotarFallback(_) => "nf",
+        Cert::Skip(_) => "skip",
+        Cert::FastFinal(_) => "ff",
+        Cert::Final(_) => "final",
+    };
+    let h = c.block_hash().map_or_else(|| "-".to_string(), |h| hash_name(names, h));
+    json!({"k": k, "s": c.slot().inner().min(1 << 30), "h": h})
+}
+
+fn pool_event_json(names: &Mutex<HashMap<Vec<u8>, String>>, e: &alpenglow::consensus::PoolEvent) -> Value {
+    use alpenglow::consensus::PoolEvent as PE;
+    match e {
+        PE::ParentReady { slot, parent } => json!({"t": "ParentReady", "s": slot.inner(),
+            "p": [parent.0.inner(), hash_name(names, &parent.1)]}),
+        PE::SafeToNotar((s, h)) => json!({"t": "SafeToNotar", "b": [s.inner(), hash_name(names, h)]}),
+        PE::SafeToSkip(s) => json!({"t": "SafeToSkip", "s": s.inner()}),
+        PE::CertCreated(c) => json!({"t": "Cert", "c": cert_json(names, c)}),
+        PE::Standstill(s, certs, votes) => json!({"t": "Standstill", "s": s.inner(),
+            "certs": certs.iter().map(|c| cert_json(names, c)).collect::<Vec<_>>(),
+            "votes": votes.iter().map(|v| vote_json(names, v)).collect::<Vec<_>>()}),
+    }
 }
 
 /// Every panic anywhere in the process while a simulation runs (tasks of the nodes included).
@@ -639,6 +669,23 @@ pub fn run(cfg: &SimConfig) -> anyhow::Result<(Vec<Value>, Value)> {
             });
         }
 
+        // standstill recovery, triggered exactly as consensus.rs's standstill_loop does
+        if cfg.standstill_ms > 0 {
+            for (i, p) in pools.iter().enumerate() {
+                if let Some(p) = p.clone() {
+                    let every = cfg.standstill_ms;
+                    tokio::spawn(async move {
+                        // staggered, so that the nodes do not all recover in the same instant
+                        tokio::time::sleep(Duration::from_millis(every + 37 * i as u64)).await;
+                        loop {
+                            p.read().await.recover_from_standstill().await;
+                            tokio::time::sleep(Duration::from_millis(every)).await;
+                        }
+                    });
+                }
+            }
+        }
+
         // crashes
         let hub3 = hub.clone();
         let crashed = cfg.crashed.clone();
@@ -695,6 +742,24 @@ pub fn run(cfg: &SimConfig) -> anyhow::Result<(Vec<Value>, Value)> {
             VerifEvent::Block { node, block, parent } => json!({
                 "e": "Block", "node": node.inner(), "s": block.0.inner(), "h": hash_name(&names, &block.1),
                 "ps": parent.0.inner(), "ph": hash_name(&names, &parent.1)}),
+            VerifEvent::PoolVote { node, vote } => json!({"e": "PoolVote", "node": node.inner(), "vote": vote_json(&names, &vote)}),
+            VerifEvent::PoolVoteCounted { node } => json!({"e": "PoolVoteCounted", "node": node.inner()}),
+            VerifEvent::PoolCert { node, cert } => json!({"e": "PoolCert", "node": node.inner(), "c": cert_json(&names, &cert)}),
+            VerifEvent::PoolEmit { node, event } => json!({"e": "PoolEmit", "node": node.inner(), "ev": pool_event_json(&names, &event)}),
+            VerifEvent::VotorPool { node, event } => json!({"e": "VotorPool", "node": node.inner(), "ev": pool_event_json(&names, &event)}),
+            VerifEvent::VotorBlockstore { node, event } => {
+                use alpenglow::consensus::BlockstoreEvent as BE;
+                let ev = match &event {
+                    BE::FirstShred(s) => json!({"t": "FirstShred", "s": s.inner()}),
+                    BE::InvalidBlock(s) => json!({"t": "InvalidBlock", "s": s.inner()}),
+                    BE::Block { slot, block_info } => json!({"t": "Block", "s": slot.inner(),
+                        "h": hash_name(&names, block_info.verif_hash()),
+                        "par": [block_info.verif_parent().0.inner(), hash_name(&names, &block_info.verif_parent().1)]}),
+                };
+                json!({"e": "VotorBlockstore", "node": node.inner(), "ev": ev})
+            }
+            VerifEvent::VotorTimeout { node, slot, crashed_leader } => json!({"e": "VotorTimeout", "node": node.inner(),
+                "s": slot.inner(), "crashed": crashed_leader}),
             VerifEvent::CertHeld { node, kind, slot, hash } => json!({
                 "e": "CertHeld", "node": node.inner(), "k": kind, "s": slot.inner(),
                 "h": hash.map_or_else(|| "-".to_string(), |h| hash_name(&names, &h))}),
